@@ -217,6 +217,33 @@ def headHtml (title : Option Str) (metas : List Node) : Str :=
    | some t => '<' :: tTitle ++ '>' :: escapeText t ++ '<' :: '/' :: tTitle ++ ['>']
    | none => []) ++ sHeadMarker ++ kidsHtml false .nextChild metas
 
+/-- `TitleContext::as_string` (meta/src/title.rs): the text of the innermost `<Title text=…/>`, passed
+through the innermost `<Title formatter=…/>`; formatters are modelled as `fun t => pre ++ t ++ post` -/
+def titleAsString (texts : List Str) (formatters : List (Str × Str)) : Option Str :=
+  match texts.getLast? with
+  | none => none
+  | some t =>
+    match formatters.getLast? with
+    | none => some t
+    | some (pre, post) => some (pre ++ t ++ post)
+
+def sShellOpen : Str := ['<','!','D','O','C','T','Y','P','E',' ','h','t','m','l','>','<','h','t','m','l']
+def sShellHead : Str := ['>','<','h','e','a','d','>']
+def sShellBody : Str := ['<','/','h','e','a','d','>','<','b','o','d','y']
+def sShellEnd : Str := ['>','<','/','b','o','d','y','>','<','/','h','t','m','l','>']
+
+/-- the first chunk `<!DOCTYPE html><html><head><!--HEAD--></head><body></body></html>` after
+`inject_meta_context`: attributes sent by `<Html/>` (meta/src/html.rs: `attributes_to_html`) right after
+`<html`, title / marker / registered tags in the head, attributes sent by `<Body/>` after `<body` -/
+def docHtml (htmlAttrs : List Attr) (title : Option Str) (metas : List Node) (bodyAttrs : List Attr) : Str :=
+  sShellOpen ++ attrsHtml htmlAttrs ++ sShellHead ++ headHtml title metas ++ sShellBody ++
+    attrsHtml bodyAttrs ++ sShellEnd
+
+def tProbe : Str := ['x','-','a']
+
+/-- an attribute string as the tokenizer sees it after any tag name: `<x-a` ++ attrs ++ `></x-a>` -/
+def attrsProbe (attrs : List Attr) : Str := '<' :: tProbe ++ attrsHtml attrs ++ '>' :: '<' :: '/' :: tProbe ++ ['>']
+
 /-- `inject_meta_context` before the repair of F-C06-2: the title was pushed as it is -/
 def headHtmlOld (title : Option Str) (metas : List Node) : Str :=
   (match title with
@@ -848,6 +875,8 @@ def titleInert (t : Str) : Bool := t.all (fun c => c != cNul && c != cCr && c !=
 * `seq ks`  — tuples, `[T; N]`, `StaticVec<T>`, `Fragment`: the items in sequence, position threaded;
 * `vec ks`  — `Vec<T>`: the items, then `<!>` and `Position::NextChild` when escaping;
 * `unit`    — `()` and `Option::None` (`Either::Right(())`): `<!>` when escaping.
+* `island c p ks`, `islandChildren ks` — `Island` / `IslandChildren` (html/islands.rs): tags and
+              attributes written by hand around the view, `position` and `escape` passed through.
 `Option::Some(v)`, `Either::{Left,Right}(v)`, `AnyView` print exactly `v` (no marker when
 `mark_branches = false`), so they have no constructor: the op decoders map them to `v`. -/
 
@@ -858,7 +887,23 @@ inductive VNode where
   | seq (kids : List VNode)
   | vec (kids : List VNode)
   | unit
+  | island (component props : Str) (kids : List VNode)
+  | islandChildren (kids : List VNode)
   deriving Repr
+
+def tIsland : Str := ['l','e','p','t','o','s','-','i','s','l','a','n','d']
+def tIslandChildren : Str := ['l','e','p','t','o','s','-','c','h','i','l','d','r','e','n']
+def sDataComponent : Str := ['d','a','t','a','-','c','o','m','p','o','n','e','n','t']
+def sDataProps : Str := ['d','a','t','a','-','p','r','o','p','s']
+
+/-- `Island::open_tag` (html/islands.rs): written by hand — the component name as it is (program
+text), the serialized props through `encode_double_quoted_attribute`, omitted when empty -/
+def islandOpen (component props : Str) : Str :=
+  '<' :: tIsland ++ ' ' :: sDataComponent ++ '=' :: '"' :: component ++ '"' ::
+    (if props = [] then [] else ' ' :: sDataProps ++ '=' :: '"' :: escapeAttr props ++ ['"']) ++ ['>']
+
+def islandAttrs (component props : Str) : List (Str × Str) :=
+  (sDataComponent, component) :: (if props = [] then [] else [(sDataProps, props)])
 
 mutual
 /-- `position` after rendering the node -/
@@ -869,6 +914,8 @@ def vPos (escape : Bool) (pos : Pos) : VNode → Pos
   | .seq ks => vKidsPos escape pos ks
   | .vec ks => if escape then .nextChild else vKidsPos escape pos ks
   | .unit => if escape then .nextChild else pos
+  | .island _ _ ks => vKidsPos escape pos ks          -- `position` and `escape` are passed through
+  | .islandChildren ks => vKidsPos escape pos ks
 def vKidsPos (escape : Bool) (pos : Pos) : List VNode → Pos
   | [] => pos
   | n :: ns => vKidsPos escape (vPos escape pos n) ns
@@ -888,6 +935,9 @@ def vHtml (escape : Bool) (pos : Pos) : VNode → Str
   | .seq ks => vKidsHtml escape pos ks
   | .vec ks => vKidsHtml escape pos ks ++ markerIf escape
   | .unit => markerIf escape
+  | .island c p ks => islandOpen c p ++ vKidsHtml escape pos ks ++ '<' :: '/' :: tIsland ++ ['>']
+  | .islandChildren ks =>
+    '<' :: tIslandChildren ++ '>' :: vKidsHtml escape pos ks ++ '<' :: '/' :: tIslandChildren ++ ['>']
 def vKidsHtml (escape : Bool) (pos : Pos) : List VNode → Str
   | [] => []
   | n :: ns => vHtml escape pos n ++ vKidsHtml escape (vPos escape pos n) ns
@@ -905,6 +955,8 @@ def vRawText : VNode → Str
   | .seq ks => vRawTextKids ks
   | .vec ks => vRawTextKids ks
   | .unit => []
+  | .island .. => []
+  | .islandChildren _ => []
 def vRawTextKids : List VNode → Str
   | [] => []
   | n :: ns => vRawText n ++ vRawTextKids ns
@@ -919,6 +971,8 @@ def vHasText : VNode → Bool
   | .seq ks => vHasTextKids ks
   | .vec ks => vHasTextKids ks
   | .unit => false
+  | .island .. => false
+  | .islandChildren _ => false
 def vHasTextKids : List VNode → Bool
   | [] => false
   | n :: ns => vHasText n || vHasTextKids ns
@@ -940,6 +994,8 @@ def vStruct (pos : Pos) : VNode → List Tree
   | .seq ks => vStructKids pos ks
   | .vec ks => vStructKids pos ks ++ [.comment []]
   | .unit => [.comment []]
+  | .island c p ks => [.elem tIsland (islandAttrs c p) (vStructKids pos ks)]
+  | .islandChildren ks => [.elem tIslandChildren [] (vStructKids pos ks)]
 def vStructKids (pos : Pos) : List VNode → List Tree
   | [] => []
   | n :: ns => vStruct pos n ++ vStructKids (vPos true pos n) ns
@@ -962,6 +1018,8 @@ def vRawTextFree : VNode → Bool
   | .elem tag _ kids => (escapeChildren tag || !vHasTextKids kids) && vRawTextFreeKids kids
   | .seq ks => vRawTextFreeKids ks
   | .vec ks => vRawTextFreeKids ks
+  | .island _ _ ks => vRawTextFreeKids ks
+  | .islandChildren ks => vRawTextFreeKids ks
   | _ => true
 def vRawTextFreeKids : List VNode → Bool
   | [] => true
@@ -976,6 +1034,8 @@ def vStrings : VNode → List Str
   | .seq ks => vKidsStrings ks
   | .vec ks => vKidsStrings ks
   | .unit => []
+  | .island _ p ks => p :: vKidsStrings ks
+  | .islandChildren ks => vKidsStrings ks
 def vKidsStrings : List VNode → List Str
   | [] => []
   | n :: ns => vStrings n ++ vKidsStrings ns
@@ -986,6 +1046,8 @@ def vHasInnerHtml : VNode → Bool
   | .elem _ attrs kids => innerBuf attrs != [] || vHasInnerHtmlKids kids
   | .seq ks => vHasInnerHtmlKids ks
   | .vec ks => vHasInnerHtmlKids ks
+  | .island _ _ ks => vHasInnerHtmlKids ks
+  | .islandChildren ks => vHasInnerHtmlKids ks
   | _ => false
 def vHasInnerHtmlKids : List VNode → Bool
   | [] => false
